@@ -419,7 +419,7 @@ func C09(c *mc.Ctx) {
 		ops = append(ops, "reexecsame", "reexecdiff 0 t", "reexecdiff 1 ibtp", "reexecdiff 1 empty", "reopen")
 		return ops
 	}
-	b := &mc.BFS{C: c, Name: "chainmc", MaxDepth: depth,
+	b := &mc.BFS{C: c, Name: "chainmc", MaxDepth: depth, EveryTransition: true,
 		Init:    func() mc.Instance { return newC09Inst() },
 		Enabled: enabled,
 		Apply:   func(in mc.Instance, op string, path []string) (bool, bool) { return in.(*c09Inst).apply(op), false },
